@@ -60,6 +60,8 @@ class Facts:
              test=None, pred=None):
         out = []
         for bid, b in self.bodies.items():
+            if "::promoted[" in bid:
+                continue
             bc, bt = self.body_unit[bid]
             if crate is not None and bc != crate:
                 continue
